@@ -7,7 +7,8 @@ VERIF = os.path.dirname(os.path.dirname(os.path.abspath(__file__)))
 SCRATCH = os.environ.get("MUTANT_REPO", "/tmp/mrepo")
 EXTRA = {  # additional checks worth trying for a seed (cross-detection)
     "C01-A": ["C13"], "C01-B": [], "C19-B": ["C01"], "C02-A": ["C09"], "C10-A": ["C09"], "C07-B": ["C05"],
-    "C10-B": [], "C11-A": ["C07"],
+    "C10-B": [], "C11-A": ["C07"], "C01-C": ["C02", "C09"], "C02-F": ["C10"], "C04-E": ["C10"], "C07-F": ["C06"],
+    "C12-E": ["C09"], "C11-D": ["C19"], "C12-C": ["C09"], "C06-B": ["C07"], "C09-C": ["C02"], "C01-F": ["C09"],
 }
 
 def sh(cmd, **kw):
